@@ -471,8 +471,11 @@ fn judge(which: &str, c: &Case, obs: &Obs, blur: i128, route: &str, sink: &mut S
 fn replay_case(ctx: &Ctx, path: &std::path::Path) -> i32 {
     let doc: Value = serde_json::from_str(&std::fs::read_to_string(path).expect("replay file")).expect("replay json");
     let c = Case::from_json(&doc["case"]["case"]);
-    let route = doc["case"]["route"].as_str().unwrap_or("direct").to_string();
-    let fail = doc["case"]["inject"].as_array().map(|a| (a[0].as_i64().unwrap() as i32, a[1].as_i64().unwrap() as i32));
+    let route_full = doc["case"]["route"].as_str().unwrap_or("direct").to_string();
+    // "<route>;inject=<errno>,<clock id, -1 all, -2 every monotonic clock>": the clock read(s) that fail during the call
+    let (route, inj) = match route_full.split_once(";inject=") { Some((r, i)) => (r.to_string(), Some(i.to_string())), None => (route_full.clone(), None) };
+    let fail = doc["case"]["inject"].as_array().map(|a| (a[0].as_i64().unwrap() as i32, a[1].as_i64().unwrap() as i32))
+        .or_else(|| inj.and_then(|i| i.split_once(',').map(|(e, c)| (e.parse().unwrap_or(0), c.parse().unwrap_or(-1)))));
     let obs1 = if route == "client" { ClientRoute::new(&ctx.scratch().join("replay")).eval(&c, fail) } else { eval_direct(&c, fail) };
     let obs2 = if route == "client" { ClientRoute::new(&ctx.scratch().join("replay")).eval(&c, fail) } else { eval_direct(&c, fail) };
     println!("replay route={route} case={}", c.json());
@@ -584,6 +587,28 @@ pub fn run(ctx: &Ctx) -> i32 {
         }
     }
 
+    // C05 / C06: a client that cannot read its monotonic clock(s). What the record's real age demands does not
+    // change because the client cannot measure it: if such a call returns an interval at all, its width and its
+    // status are judged against the real age like any other (an error is C14's subject and is not judged here).
+    let mut noclock_cases = 0u64;
+    if which == "C05" || which == "C06" {
+        let mut client = ClientRoute::new(&scratch.join("noclock"));
+        for status in [1u32, 2] {
+            for age in [S, 4 * S, 6 * S, 999 * S, 1001 * S, 3 * 3600 * S] {
+                for fail in [(libc::EINVAL, libc::CLOCK_MONOTONIC_COARSE), (libc::ENOSYS, libc::CLOCK_MONOTONIC_COARSE), (libc::EINVAL, -2)] {
+                    for route in ["direct", "client"] {
+                        let rec = Rec { as_of_s: 1000, as_of_ns: 0, va_s: 2000, va_ns: 0, bound: 1_000_000, drift: 50_000, reserved: 0, status };
+                        let c = Case { rec, real_ns: al.reals[0], mono_ns: ts_ns(1000, 0) + age };
+                        let obs = if route == "direct" { eval_direct(&c, Some(fail)) } else { client.eval(&c, Some(fail)) };
+                        noclock_cases += 1;
+                        if let Obs::Ok { .. } = obs {
+                            let _ = judge(which, &c, &obs, blur, &format!("{route};inject={},{}", fail.0, fail.1), &mut sink, &mut stats);
+                        }
+                    }
+                }
+            }
+        }
+    }
     // C14: error propagation with an injected clock failure, both routes
     let mut inject_cases = 0;
     if which == "C14" {
@@ -617,6 +642,7 @@ pub fn run(ctx: &Ctx) -> i32 {
         ("samples", json!(samples)),
         ("exhaustive", json!(true)),
         ("exhaustive_of", json!("the stated finite alphabet product (not of the full input domain)")),
+        ("monotonic_clock_unreadable_cases", json!(noclock_cases)),
         ("alphabets", json!({"as_of_sec": al.as_of_s, "as_of_nsec": al.as_of_ns, "void_after_kinds": al.v_kinds.iter().map(|k| ["as_of+5s", "as_of+10s", "daemon style (sec+1000, nsec 0)", "as_of-11s"][*k as usize]).collect::<Vec<_>>(),
             "bound_nsec": al.bounds, "max_drift_ppb": al.drifts, "realtime_ns": al.reals.iter().map(|r| r.to_string()).collect::<Vec<_>>(),
             "age_ns": ages(1000 * S, blur).iter().map(|a| a.to_string()).collect::<Vec<_>>()})),
